@@ -194,6 +194,22 @@ def corpus():
     for n in (1, 2, 3):
         out.append(("/v1.Signer/Sign", "client-test01", msg(fld(2, LEN, b"Wallet 1/Account 0"), fld(3, LEN, bytes(32)), fld(4, LEN, bytes([1] * n))), "short-domain"))
         out.append(("/v1.Signer/SignBeaconProposal", "client-test01", msg(fld(2, LEN, b"Wallet 1/Account 0"), fld(3, LEN, bytes(n)), fld(4, LEN, msg(fld(1, VARINT, 5), fld(3, LEN, bytes(32)), fld(4, LEN, bytes(32)), fld(5, LEN, bytes(32))))), "short-domain"))
+    # after an account has been created through dirk at run time, requests naming accounts that do not exist in that
+    # wallet (and the new one) take the fetcher's dynamic-account path
+    out.append(("/v1.AccountManager/Generate", "client-test01", msg(fld(1, LEN, b"Wallet 1/Fresh account"), fld(2, LEN, b"pass"), fld(3, VARINT, 1), fld(4, VARINT, 1)), "generate-valid"))
+    dom4 = bytes([4, 0, 0, 0]) + bytes(28)
+    for nm in (b"Wallet 1/Nope", b"Wallet 1/Fresh account", b"Wallet 1/", b"Wallet 1/Fresh"):
+        one = msg(fld(2, LEN, nm), fld(3, LEN, bytes([7]) * 32), fld(4, LEN, dom4))
+        out.append(("/v1.Signer/Sign", "client-test01", one, "after-generate"))
+        out.append(("/v1.Signer/Multisign", "client-test01", msg(fld(1, LEN, one), fld(1, LEN, msg(fld(2, LEN, b"Wallet 1/Account 0"), fld(3, LEN, bytes(32)), fld(4, LEN, dom4)))), "after-generate"))
+        ad = msg(fld(1, VARINT, 3), fld(2, VARINT, 1), fld(3, LEN, bytes(32)), fld(4, LEN, msg(fld(1, VARINT, 1), fld(2, LEN, bytes(32)))), fld(5, LEN, msg(fld(1, VARINT, 2), fld(2, LEN, bytes(32)))))
+        areq = msg(fld(2, LEN, nm), fld(3, LEN, bytes([1, 0, 0, 0]) + bytes(28)), fld(4, LEN, ad))
+        out.append(("/v1.Signer/SignBeaconAttestation", "client-test01", areq, "after-generate"))
+        out.append(("/v1.Signer/SignBeaconAttestations", "client-test01", msg(fld(1, LEN, areq)), "after-generate"))
+        out.append(("/v1.Signer/SignBeaconProposal", "client-test01", msg(fld(2, LEN, nm), fld(3, LEN, bytes(32)), fld(4, LEN, msg(fld(1, VARINT, 5), fld(3, LEN, bytes(32)), fld(4, LEN, bytes(32)), fld(5, LEN, bytes(32))))), "after-generate"))
+        out.append(("/v1.AccountManager/Lock", "client-test01", msg(fld(1, LEN, nm)), "after-generate"))
+        out.append(("/v1.AccountManager/Unlock", "client-test01", msg(fld(1, LEN, nm), fld(2, LEN, b"pass")), "after-generate"))
+    out.append(("/v1.Lister/ListAccounts", "client-test01", msg(fld(1, LEN, b"Wallet 1/Nope|Fresh.*")), "after-generate"))
     out.append(("/v1.Signer/SignBeaconAttestations", "client-test01", b"", "empty"))
     out.append(("/v1.Signer/Multisign", "client-test01", msg(fld(1, LEN, b""), fld(1, LEN, b"")), "empty-entries"))
     return out
